@@ -40,7 +40,7 @@ mod value;
 #[cfg(feature = "verif-hooks")]
 mod verif;
 #[cfg(feature = "verif-hooks")]
-pub use verif::verif_sanitize;
+pub use verif::{verif_cycle_log_start, verif_cycle_log_take, verif_sanitize};
 
 #[allow(missing_docs)]
 #[derive(Error, Debug)]
